@@ -173,6 +173,71 @@ def check(ctx, rep):
     except ValueError:
         ok = False
     rep.ob('lister.number-before-ascii', 'lister recognises number tokens before literal bytes', ok, repr(tests), ctx.where(dc))
+    # suffix tests in the lister (`len(output) >= k and output[-k:] == KEYWORD`): k is the keyword's length and
+    # the length guard admits an output that consists of exactly that keyword (WHILE at the start of a line)
+    n_suffix = 0
+    for fn in ctx.idx.functions(LST):
+        for b in own_nodes(fn):
+            if not (isinstance(b, ast.BoolOp) and isinstance(b.op, ast.And)):
+                continue
+            for c in b.values:
+                if isinstance(c, ast.Compare) and len(c.ops) == 1 and isinstance(c.ops[0], ast.Eq) and norm(c.comparators[0]).startswith('tk.KW_'):
+                    sl = [x for x in ast.walk(c.left) if isinstance(x, ast.Subscript) and isinstance(x.slice, ast.Slice) and x.slice.upper is None
+                          and isinstance(x.slice.lower, ast.UnaryOp) and isinstance(x.slice.lower.operand, ast.Constant)]
+                    if len(sl) != 1:
+                        continue
+                    k = sl[0].slice.lower.operand.value
+                    buf = norm(sl[0].value)
+                    kw = ctx.const(TK, norm(c.comparators[0]).split('.')[1])
+                    guards = [g for g in b.values if isinstance(g, ast.Compare) and len(g.ops) == 1 and norm(g.left) == 'len(%s)' % buf
+                              and isinstance(g.comparators[0], ast.Constant)]
+                    low = None
+                    if len(guards) == 1:
+                        g = guards[0]
+                        low = g.comparators[0].value + (1 if isinstance(g.ops[0], ast.Gt) else 0) if isinstance(g.ops[0], (ast.Gt, ast.GtE)) else None
+                    n_suffix += 1
+                    rep.ob('lister.suffix-test-length', '%s: the test for a preceding %s looks at its %d characters and admits exactly them' % (fn.name, kw.decode(), len(kw)),
+                           k == len(kw) and low == len(kw), 'slice [-%s:], length guard admits len >= %s, keyword has %d characters' % (k, low, len(kw)), ctx.where(b))
+    rep.floor('lister.suffix-test-length', n_suffix, 3, 'suffix tests')
+    # a double-precision literal always lists with its '#': the type sign may be dropped for singles only
+    dnot = ctx.fn(N + ':Float._decimal_notation')
+    app = [a for a in own_nodes(dnot) if isinstance(a, ast.AugAssign) and norm(a.target) == 'valstr' and norm(a.value) == 'type_sign']
+    ok = len(app) == 1 and isinstance(app[0]._parent, ast.If) and _true_when(app[0]._parent.test, "type_sign == b'#'")
+    rep.ob('list.double-sigil-kept', "_decimal_notation appends the type sign whenever it is '#'", ok,
+           "a double literal such as 1.5# lists as 1.5 and re-enters as a single", ctx.where(dnot))
+
+
+def _true_when(test, atom):
+    """The boolean formula `test` is true under every assignment of its other atoms once `atom` is true."""
+    import itertools
+    atoms = []
+
+    def collect(t):
+        if isinstance(t, ast.BoolOp):
+            for v in t.values:
+                collect(v)
+        elif isinstance(t, ast.UnaryOp) and isinstance(t.op, ast.Not):
+            collect(t.operand)
+        elif norm(t) not in atoms:
+            atoms.append(norm(t))
+
+    def ev(t, env):
+        if isinstance(t, ast.BoolOp):
+            vals = [ev(v, env) for v in t.values]
+            return all(vals) if isinstance(t.op, ast.And) else any(vals)
+        if isinstance(t, ast.UnaryOp) and isinstance(t.op, ast.Not):
+            return not ev(t.operand, env)
+        return env[norm(t)]
+    collect(test)
+    if atom not in atoms or len(atoms) > 8:
+        return False
+    others = [a for a in atoms if a != atom]
+    for vals in itertools.product([False, True], repeat=len(others)):
+        env = dict(zip(others, vals))
+        env[atom] = True
+        if not ev(test, env):
+            return False
+    return True
 
 
 def variants(ctx):
@@ -185,6 +250,10 @@ def variants(ctx):
         return lambda tree: mu.replace_stmt(tree, lambda st: isinstance(st, ast.Assign) and norm(st.targets[0]) == name, '%s = %s' % (name, val))
 
     return [
+        Va('while-plus-shown-at-line-start', 'break', LST,
+           lambda tree: mu.replace_expr(tree, mu.text_is('len(output) >= 5'), 'len(output) > 5'), expect='lister.suffix-test-length'),
+        Va('double-sigil-dropped-after-point', 'break', N,
+           in_fn('Float._decimal_notation', lambda fn: mu.replace_expr(fn, mu.text_is("b'.' not in valstr or type_sign == b'#'"), "b'.' not in valstr")), expect='list.double-sigil-kept'),
         Va('two-keywords-same-token', 'break', TK, set_tok('LOCATE', "b'\\xc9'"), expect='bijection'),
         Va('two-tokens-same-keyword', 'break', TK, set_tok('KW_LOF', "b'LOC'"), expect='bijection.no-duplicate-keyword'),
         Va('lowercase-keyword', 'break', TK, set_tok('KW_CINT', "b'Cint'"), expect='case.keywords-upper'),
